@@ -59,6 +59,7 @@ func init() {
 		"vSameBacking": inSameBacking,
 		"vCountTrue":   inCountTrue,
 		"vPad":         inPad,
+		"vModelLimit":  func(it *Interp, fr *frame, cc *ssa.CallCommon, a []Value) Value { it.AllocLimit = it.intArg(a[0]); return nil },
 		"vGSM7Text":    inGSM7Text,
 		"vFPContracts": func(it *Interp, fr *frame, cc *ssa.CallCommon, a []Value) Value { it.FPContracts = a[0].(*Term).IsTrue(); return nil },
 		"vConcretizeAlloc": func(it *Interp, fr *frame, cc *ssa.CallCommon, a []Value) Value { it.ConcretizeAlloc = a[0].(*Term).IsTrue(); return nil },
